@@ -820,16 +820,19 @@ impl<T: Float> Unpaired<T> {
             // NaN or infinite observations (or an overflow of the sums)
             return Err(CIError::InvalidInputData);
         }
+        // the effective number of degrees of freedom is computed in `f64`, like the quantile it feeds:
+        // it involves the fourth powers of the spreads, which under- or overflow in a narrower type
+        // for data of quite ordinary magnitudes (e.g., around 1e-12 or 1e10 in `f32`)
+        let (va, vb) = (sa2_na.try_f64("sa2_na")?, sb2_nb.try_f64("sb2_nb")?);
+        let (na, nb) = (n_a.try_f64("n_a")?, n_b.try_f64("n_b")?);
         let effective_dof = // $ \frac{ (s_a^a / n_a + s_b^2 / n_b)^2 }{ \frac{1}{n_a+1} \left(\frac{s_a^2}{n_a}\right)^2 + \frac{1}{n_b+1} \left(\frac{s_b^2}{n_b}\right)^2 } - 2$
-            sum_s2_n * sum_s2_n
-                / (sa2_na * sa2_na / (n_a + T::one())
-                    + sb2_nb * sb2_nb / (n_b + T::one())) - T::one() - T::one();
+            (va + vb) * (va + vb) / (va * va / (na + 1.) + vb * vb / (nb + 1.)) - 1. - 1.;
 
         let (lo, hi) = stats::interval_bounds(
             confidence,
             mean_difference.try_f64("mean_difference")?,
             std_err_mean.try_f64("std_err_mean")?,
-            effective_dof.try_f64("effective_dof")?,
+            effective_dof,
         );
         let lo = T::from(lo).convert("lo")?;
         let hi = T::from(hi).convert("hi")?;
